@@ -19,8 +19,8 @@ from ..tlaval import parse, read_dump
 
 PROP = "C07"
 BOUNDS = {
-    "quick": dict(dirs='{"a", "b"}', depth=2, fl="StdFileLang2", ml="StdMeasLists", n=3, rnd=1500),
-    "thorough": dict(dirs='{"a", "b"}', depth=2, fl="StdFileLang3", ml="StdMeasLists", n=3, rnd=20000),
+    "quick": dict(dirs='{"a", ".a"}', depth=2, fl="StdFileLang2", ml="StdMeasLists", n=3, rnd=1500),
+    "thorough": dict(dirs='{"a", "b", ".a"}', depth=2, fl="StdFileLang3", ml="StdMeasLists", n=3, rnd=20000),
 }
 CONST = lambda b: {"DirNames": b["dirs"], "MaxDepth": b["depth"], "FileLang": None, "MeasLists": None, "MaxFiles": b["n"]}
 
@@ -129,7 +129,7 @@ def accept(wd, b, events, name="c07_trace"):
 
 
 def random_codebase(rng):
-    names = ["a", "b", "src", "x.y"]
+    names = ["a", "b", "src", "x.y", ".a", ".src", "..b", "a.", "_a"]  # dotted twins of ordinary names: folder keys are whole names
     fns = [("f.py", "Python"), ("g.c", "C"), ("h.js", "JavaScript"), ("i.py", "Python"), ("Main.java", "Java")]
     n = rng.randint(0, 12)
     seen, files = set(), []
